@@ -235,3 +235,36 @@ func VerifC05_poolRetry() {
 	verifJoin()
 	verifAssert(returned, "the waiter returned")
 }
+
+// VerifC05_poolTwoWaiters: two waiters on an exhausted pool, the holder returns its wire, one
+// waiter's context is cancelled at any point: that waiter must return (with the wire or with
+// the context error) on every schedule; the other one may keep the wire forever.
+func VerifC05_poolTwoWaiters() {
+	made := 0
+	p := newPool(1, deadFn(), 0, 0, func(ctx context.Context) wire {
+		made++
+		return &verifWire{id: made}
+	})
+	held := p.Acquire(context.Background())
+	ctx, cancel := context.WithCancel(context.Background())
+	returned := false
+	verifGo("patient", func() {
+		verifDaemon() // background context: may wait forever if the other waiter won the wire
+		v := p.Acquire(context.Background())
+		_ = v // keeps it
+	})
+	verifGo("impatient", func() {
+		v := p.Acquire(ctx)
+		returned = true
+		if v.Error() == nil {
+			verifReach("gotwire")
+		} else {
+			verifReach("cancelled")
+		}
+	})
+	verifGo("holder", func() { p.Store(held) })
+	verifGo("canceller", func() { cancel() })
+	verifJoin()
+	verifAssert(returned, "the waiter whose context ended returned")
+	verifAssert(made == 1, "no connection beyond BlockingPoolSize is dialled")
+}
